@@ -171,12 +171,12 @@ Lemma improve_step P s n :
   bnd s n ->
   let o := first_in P (trunc s n) in
   (if negb (o =? -1) && ((n =? -1) || (o <? n)) then o else n) = zmin n (first_in P s) /\
-  (o = -1 \/ 0 <= o <= len (trunc s n)).
+  (o = -1 \/ (0 <= o <= len (trunc s n) /\ o = first_in P s)).
 Proof.
   intros [->|(k & Hk & ->)]; cbv zeta; unfold trunc.
   - unfold zmin. rewrite !Z.eqb_refl. rewrite orb_true_l, andb_true_r.
     split; [destruct (first_in P s =? -1) eqn:E; cbn [negb]; lia|].
-    destruct (first_in_bnd P s) as [E|(j & Hj & E)]; [left; exact E|right]. rewrite E. unfold len. pose proof (off_le s j). lia.
+    destruct (first_in_bnd P s) as [E|(j & Hj & E)]; [left; exact E|right]. split; [|reflexivity]. rewrite E. unfold len. pose proof (off_le s j). lia.
   - replace (Z.of_nat (off s k) =? -1) with false by lia. rewrite Nat2Z.id, (first_in_trunc P s k Hk). cbv zeta.
     set (i := first_in P s). unfold zmin. replace (Z.of_nat (off s k) =? -1) with false by lia. cbn [orb].
     assert (Hi : i = -1 \/ 0 <= i) by (destruct (first_in_bnd P s) as [E|(j & _ & E)]; unfold i; lia).
@@ -186,7 +186,7 @@ Proof.
         replace (i =? -1) with false by lia. lia.
       * rewrite Z.eqb_refl. cbn [negb andb]. destruct (i =? -1) eqn:E; [reflexivity|]. lia.
     + destruct ((0 <=? i) && (i <? Z.of_nat (off s k))) eqn:C; [right|left; reflexivity].
-      unfold len. rewrite firstn_length. pose proof (off_le s k). lia.
+      split; [|reflexivity]. unfold len. rewrite firstn_length. pose proof (off_le s k). lia.
 Qed.
 
 Lemma trunc_trunc s n o : bnd s n -> 0 <= o -> (n = -1 \/ o <= n) -> firstn (Z.to_nat o) (trunc s n) = trunc s o.
@@ -334,25 +334,34 @@ Proof. intros Hw. apply indexRuneCase_ok. exact Hw. Qed.
 
 Lemma ir_folds_ok folds r s n size :
   wf s -> bnd s n -> 128 <= r ->
+  (forall x, In x (take_nz folds) -> x <> RuneError) -> (0 <= n -> size = seg_width s n) ->
   exists size', ir_folds native cutover folds r (trunc s n) n size =
-    Ok (fold_left zmin (map (rune_index s) (filter (fun x => negb (x =? r)) (take_nz folds))) n, size').
+    Ok (fold_left zmin (map (rune_index s) (filter (fun x => negb (x =? r)) (take_nz folds))) n, size') /\
+    (0 <= fold_left zmin (map (rune_index s) (filter (fun x => negb (x =? r)) (take_nz folds))) n ->
+     size' = seg_width s (fold_left zmin (map (rune_index s) (filter (fun x => negb (x =? r)) (take_nz folds))) n)).
 Proof.
-  intros Hw. revert n size. induction folds as [|rr rest IH]; intros n size Hn Hr; cbn [ir_folds take_nz].
-  { exists size. reflexivity. }
+  intros Hw. revert n size. induction folds as [|rr rest IH]; intros n size Hn Hr Hne Hsz; cbn [ir_folds take_nz].
+  { exists size. split; [reflexivity|exact Hsz]. }
   destruct (rr =? r) eqn:E1.
-  { replace (rr =? 0) with false by lia. cbn [filter]. rewrite E1. cbn [negb]. apply IH; assumption. }
-  destruct (rr =? 0) eqn:E0; [exists size; reflexivity|].
+  { replace (rr =? 0) with false by lia. cbn [filter]. rewrite E1. cbn [negb]. apply IH; try assumption.
+    intros x Hx. apply Hne. cbn [take_nz]. replace (rr =? 0) with false by lia. right. exact Hx. }
+  destruct (rr =? 0) eqn:E0; [exists size; split; [reflexivity|exact Hsz]|].
   cbn [filter]. rewrite E1. cbn [negb map fold_left].
+  assert (Hrr : rr <> RuneError) by (apply Hne; cbn [take_nz]; rewrite E0; left; reflexivity).
+  assert (Hne' : forall x, In x (take_nz rest) -> x <> RuneError).
+  { intros x Hx. apply Hne. cbn [take_nz]. rewrite E0. right. exact Hx. }
   rewrite (irc_first_in (trunc s n) rr (wf_trunc s n Hw)). cbn [bind].
   destruct (improve_step (fun x => x =? rr) s n Hn) as [Hstep Hor]. cbv zeta in Hstep, Hor.
-  change (first_in (fun x => x =? rr) s) with (rune_index s rr) in Hstep.
+  change (first_in (fun x => x =? rr) s) with (rune_index s rr) in Hstep, Hor.
   set (o := first_in (fun x => x =? rr) (trunc s n)) in *.
   destruct (negb (o =? -1) && ((n =? -1) || (o <? n))) eqn:C.
   - rewrite <- Hstep.
-    assert (Ho : 0 <= o <= len (trunc s n)) by (destruct Hor; lia).
+    assert (Ho : 0 <= o <= len (trunc s n) /\ o = rune_index s rr) by (destruct Hor; [lia|assumption]).
     unfold slice_to. replace ((0 <=? o) && (o <=? len (trunc s n))) with true by lia. cbn [bind].
     rewrite (trunc_trunc s n o Hn) by lia.
-    apply IH; [|exact Hr]. rewrite Hstep. apply zmin_bnd; [exact Hn|apply rune_index_bnd].
+    apply IH; try assumption.
+    + rewrite Hstep. apply zmin_bnd; [exact Hn|apply rune_index_bnd].
+    + intros _. destruct Ho as [_ Eo]. rewrite Eo. symmetry. apply seg_width_rune_index; [exact Hw|exact Hrr|lia].
   - rewrite <- Hstep. apply IH; assumption.
 Qed.
 
@@ -367,19 +376,20 @@ Proof.
 Qed.
 
 Lemma indexRune2_ok s l u :
-  wf s -> 0 <= l -> 0 <= u -> (128 <= l \/ 128 <= u) ->
-  exists sz, indexRune2 native cutover s l u = Ok (zmin (rune_index s l) (rune_index s u), sz).
+  wf s -> 0 <= l -> 0 <= u -> (128 <= l \/ 128 <= u) -> l <> RuneError -> u <> RuneError ->
+  exists sz, indexRune2 native cutover s l u = Ok (zmin (rune_index s l) (rune_index s u), sz) /\
+    (0 <= zmin (rune_index s l) (rune_index s u) -> sz = seg_width s (zmin (rune_index s l) (rune_index s u))).
 Proof.
-  intros Hw Hl Hu Hhi. unfold indexRune2.
+  intros Hw Hl Hu Hhi Hle Hue. unfold indexRune2.
   assert (128 <= Z.lor l u) by (destruct Hhi; [apply lor_ge; assumption|rewrite Z.lor_comm; apply lor_ge; assumption]).
   replace (Z.lor l u <? 128) with false by lia.
   rewrite (irc_first_in s l Hw). cbn [bind]. change (first_in (fun x => x =? l) s) with (rune_index s l).
   set (n := rune_index s l).
+  assert (Hszl : 0 <= n -> rune_len l = seg_width s n) by (intros H0; symmetry; apply seg_width_rune_index; assumption).
   destruct (negb (n =? 0) && negb (l =? u)) eqn:C.
-  2:{ exists (rune_len l). f_equal. f_equal. apply andb_false_iff in C as [C|C].
-      - assert (n = 0) by lia. rewrite H0. symmetry. apply zmin_zero.
-        destruct (rune_index_lt s u); lia.
-      - assert (l = u) by lia. subst u. fold n. symmetry. apply zmin_idem. }
+  2:{ apply finish_pair; [|exact Hszl]. apply andb_false_iff in C as [C|C].
+      - assert (n = 0) by lia. rewrite H0. apply zmin_zero. destruct (rune_index_lt s u); lia.
+      - assert (l = u) by lia. subst u. fold n. apply zmin_idem. }
   assert (Hn : bnd s n) by apply rune_index_bnd.
   assert (Hnl : n = -1 \/ 0 <= n < len s) by apply rune_index_lt.
   assert (Et : (if (0 <=? n) && (n <? len s) then firstn (Z.to_nat n) s else s) = trunc s n).
@@ -387,15 +397,17 @@ Proof.
     replace ((0 <=? n) && (n <? len s)) with true by lia. replace (n =? -1) with false by lia. reflexivity. }
   rewrite Et, (irc_first_in (trunc s n) u (wf_trunc s n Hw)). cbn [bind].
   destruct (improve_step (fun x => x =? u) s n Hn) as [Hstep Hor]. cbv zeta in Hstep, Hor.
-  change (first_in (fun x => x =? u) s) with (rune_index s u) in Hstep.
+  change (first_in (fun x => x =? u) s) with (rune_index s u) in Hstep, Hor.
   set (o := first_in (fun x => x =? u) (trunc s n)) in *.
+  assert (Hszu : 0 <= o -> rune_len u = seg_width s o).
+  { intros H0. destruct Hor as [|[_ Eo]]; [lia|]. rewrite Eo in *. symmetry. apply seg_width_rune_index; assumption. }
   rewrite <- Hstep.
   destruct Hnl as [En|Hnl].
-  - rewrite En in *. rewrite Z.eqb_refl. cbn [orb].
-    exists (rune_len u). f_equal. f_equal. rewrite andb_true_r. destruct (o =? -1) eqn:E; cbn [negb]; lia.
+  - rewrite En in *. rewrite Z.eqb_refl. cbn [orb]. rewrite andb_true_r.
+    apply finish_pair; [|exact Hszu]. destruct (o =? -1) eqn:E; cbn [negb]; lia.
   - replace (n =? -1) with false by lia. cbn [orb].
-    assert (negb (o =? -1) && (o <? n) = (0 <=? o) && (o <? n)) as -> by (destruct Hor; lia).
-    destruct ((0 <=? o) && (o <? n)); eexists; reflexivity.
+    assert (negb (o =? -1) && (o <? n) = (0 <=? o) && (o <? n)) as -> by (destruct Hor as [|[? ?]]; lia).
+    destruct ((0 <=? o) && (o <? n)); apply finish_pair; try reflexivity; assumption.
 Qed.
 
 Lemma runes_int32 s x : wf s -> In x (runes s) -> int32 x.
@@ -405,23 +417,35 @@ Proof.
 Qed.
 
 
-(* indexByte returns the IndexByte specification for every ASCII byte *)
+(* indexByte returns the IndexByte specification for every ASCII byte, and the width of what it found *)
 Lemma indexByte_pair_ok s c :
-  wf s -> 0 <= c < 128 -> exists sz, indexByte native cutover s c = Ok (index_byte s c, sz).
+  wf s -> 0 <= c < 128 ->
+  exists sz, indexByte native cutover s c = Ok (index_byte s c, sz) /\
+             (0 <= index_byte s c -> sz = seg_width s (index_byte s c)).
 Proof.
   intros Hw Hc. destruct (is_ks c) eqn:K.
   - assert (Hcase : (c = 107 \/ c = 75) \/ (c = 115 \/ c = 83)) by (unfold is_ks in K; lia).
     destruct Hcase as [Hk|Hs].
-    + destruct (indexByte_ks native cutover s c 107 8490 kelvin Hw ltac:(lia) ltac:(left; auto)) as (sz & E).
-      exists sz. rewrite E. f_equal. f_equal. unfold index_byte, byte_pats, is_alpha, lower_ascii.
-      destruct Hk as [-> | ->]; reflexivity.
-    + destruct (indexByte_ks native cutover s c 115 383 long_s Hw ltac:(lia) ltac:(right; auto)) as (sz & E).
-      exists sz. rewrite E. f_equal. f_equal. unfold index_byte, byte_pats, is_alpha, lower_ascii.
-      destruct Hs as [-> | ->]; reflexivity.
-  - exists 1. unfold indexByte. destruct s as [|b0 s0] eqn:Es; [reflexivity|]. rewrite <- Es in *.
-    replace (is_nil s) with false by (rewrite Es; reflexivity).
-    unfold is_ks in K. replace ((c =? 75) || (c =? 107)) with false by lia. replace ((c =? 83) || (c =? 115)) with false by lia.
-    unfold index_byte. rewrite byte_pats_plain by (try assumption; try lia; unfold is_ks; lia). reflexivity.
+    + destruct (indexByte_ks native cutover s c 107 8490 kelvin Hw ltac:(lia) ltac:(left; auto)) as (sz & E & Hsz).
+      assert (Ep : index_byte s c = raw_index_pats [[107]; [107 - 32]; kelvin] s 0).
+      { unfold index_byte, byte_pats, is_alpha, lower_ascii. destruct Hk as [-> | ->]; reflexivity. }
+      exists sz. rewrite Ep. split; assumption.
+    + destruct (indexByte_ks native cutover s c 115 383 long_s Hw ltac:(lia) ltac:(right; auto)) as (sz & E & Hsz).
+      assert (Ep : index_byte s c = raw_index_pats [[115]; [115 - 32]; long_s] s 0).
+      { unfold index_byte, byte_pats, is_alpha, lower_ascii. destruct Hs as [-> | ->]; reflexivity. }
+      exists sz. rewrite Ep. split; assumption.
+  - exists 1.
+    assert (Ep : index_byte s c = k_index_byte s c).
+    { unfold index_byte. apply byte_pats_plain; try assumption; lia. }
+    rewrite Ep. split.
+    + unfold indexByte. destruct s as [|b0 s0] eqn:Es; [reflexivity|]. rewrite <- Es in *.
+      replace (is_nil s) with false by (rewrite Es; reflexivity).
+      unfold is_ks in K. replace ((c =? 75) || (c =? 107)) with false by lia. replace ((c =? 83) || (c =? 115)) with false by lia.
+      reflexivity.
+    + intros H0. destruct (k_index_byte_least s c (k_index_byte s c) eq_refl H0) as (M & L & _).
+      replace (seg_width s (k_index_byte s c)) with (seg_width s (Z.of_nat (Z.to_nat (k_index_byte s c)))) by (f_equal; lia).
+      symmetry. apply seg_width_ascii; [unfold len in L; lia|].
+      unfold byte_match in M. destruct (nth (Z.to_nat (k_index_byte s c)) s 0 =? c) eqn:E; lia.
 Qed.
 
 Lemma index_rune_first_in s r :
@@ -446,30 +470,41 @@ Lemma bool_eq_iff (a b : bool) : (a = true <-> b = true) -> a = b.
 Proof. destruct a, b; intros [H1 H2]; try reflexivity; [symmetry; apply H1; reflexivity|apply H2; reflexivity]. Qed.
 
 Theorem indexRune_ok s r :
-  wf s -> exists sz, indexRune native cutover fold_map upper_lower s r = Ok (index_rune fold s r, sz).
+  wf s -> exists sz, indexRune native cutover fold_map upper_lower s r = Ok (index_rune fold s r, sz) /\
+                     (r <> RuneError -> 0 <= index_rune fold s r -> sz = seg_width s (index_rune fold s r)).
 Proof.
   intros Hw. unfold indexRune.
   destruct ((0 <=? r) && (r <? 128)) eqn:A.
   { (* ASCII *)
     assert (Hr : 0 <= r < 128) by lia.
-    destruct (indexByte_pair_ok s r Hw Hr) as (sz & E). exists sz. rewrite E. f_equal. f_equal.
-    rewrite (index_byte_first_in s r Hw Hr), index_rune_first_in by (unfold valid_rune; lia).
-    apply first_in_ext. intros x Hx. apply bool_eq_iff. rewrite existsb_In, Z.eqb_eq.
-    symmetry. apply Hascii; [exact Hr|apply (runes_int32 s x Hw Hx)]. }
+    destruct (indexByte_pair_ok s r Hw Hr) as (sz & E & Hsz). exists sz. rewrite E.
+    assert (Ei : index_byte s r = index_rune fold s r).
+    { rewrite (index_byte_first_in s r Hw Hr), index_rune_first_in by (unfold valid_rune; lia).
+      apply first_in_ext. intros x Hx. apply bool_eq_iff. rewrite existsb_In, Z.eqb_eq.
+      symmetry. apply Hascii; [exact Hr|apply (runes_int32 s x Hw Hx)]. }
+    rewrite <- Ei. split; [reflexivity|intros _; exact Hsz]. }
   destruct (r =? RuneError) eqn:B.
   { assert (r = RuneError) by lia. subst r.
     rewrite first_error_rune_index, index_rune_first_in by reflexivity.
     assert (E : first_in (fun x => fold x =? fold RuneError) s = rune_index s RuneError).
     { apply first_in_ext. intros x Hx. apply bool_eq_iff. rewrite !Z.eqb_eq. apply Herr. apply (runes_int32 s x Hw Hx). }
-    rewrite E. destruct (rune_index s RuneError =? -1) eqn:M; eexists; f_equal; f_equal; lia. }
+    rewrite E. destruct (rune_index s RuneError =? -1) eqn:M; eexists; (split; [f_equal; f_equal; lia|congruence]). }
   destruct (valid_rune r) eqn:V; cbn [negb].
-  2:{ exists 1. unfold index_rune. rewrite V. reflexivity. }
+  2:{ exists 1. unfold index_rune. rewrite V. split; [reflexivity|lia]. }
   assert (Hr : 128 <= r <= MaxRune) by (unfold valid_rune in V; unfold MaxRune in *; lia).
+  assert (Hre : r <> RuneError) by lia.
   rewrite index_rune_first_in by exact V.
   assert (Hspec : first_in (fun x => fold x =? fold r) s = first_in (fun x => existsb (Z.eqb x) (cands r)) s).
   { apply first_in_ext. intros x Hx. apply bool_eq_iff. rewrite existsb_In, Z.eqb_eq.
     apply Hcands; [exact Hr|apply (runes_int32 s x Hw Hx)]. }
-  rewrite Hspec. unfold cands_of.
+  rewrite Hspec.
+  (* no candidate is U+FFFD *)
+  assert (Hcne : forall x, In x (cands r) -> x <> RuneError).
+  { intros x Hx Ex. subst x. apply Hre. apply Herr; [unfold int32, MaxRune in *; lia|].
+    symmetry. apply Hcands; [exact Hr|unfold int32, RuneError; lia|exact Hx]. }
+  assert (Hszr : 0 <= rune_index s r -> rune_len r = seg_width s (rune_index s r)).
+  { intros H0. symmetry. apply seg_width_rune_index; assumption. }
+  unfold cands_of in *.
   destruct (fold_map r) as [folds|] eqn:FM.
   - (* FoldMap row *)
     rewrite (irc_first_in s r Hw). cbn [bind]. change (first_in (fun x => x =? r) s) with (rune_index s r).
@@ -480,9 +515,11 @@ Proof.
     rewrite Hsplit, <- (fold_zmin_first_in s _ (fun x => x =? r)).
     change (first_in (fun x => x =? r) s) with (rune_index s r).
     destruct (rune_index s r =? 0) eqn:Z0.
-    { exists (rune_len r). f_equal. f_equal. assert (E0 : rune_index s r = 0) by lia. rewrite E0.
-      symmetry. apply fold_zmin_zero. apply Forall_forall. intros y Hy. apply in_map_iff in Hy as (m & <- & _).
-      destruct (rune_index_lt s m); lia. }
+    { assert (E0 : rune_index s r = 0) by lia.
+      assert (Ef : fold_left zmin (map (rune_index s) (filter (fun y => negb (y =? r)) (take_nz folds))) (rune_index s r) = 0).
+      { rewrite E0. apply fold_zmin_zero. apply Forall_forall. intros y Hy. apply in_map_iff in Hy as (m & <- & _).
+        destruct (rune_index_lt s m); lia. }
+      rewrite Ef. exists (rune_len r). split; [reflexivity|]. intros _ _. rewrite <- E0. apply Hszr. lia. }
     assert (Hn : bnd s (rune_index s r)) by apply rune_index_bnd.
     assert (Hnl : rune_index s r = -1 \/ 0 <= rune_index s r < len s) by apply rune_index_lt.
     assert (Et : (if 0 <? rune_index s r then slice_to s (rune_index s r) else Ok s) = Ok (trunc s (rune_index s r))).
@@ -492,25 +529,32 @@ Proof.
         replace ((0 <=? rune_index s r) && (rune_index s r <=? len s)) with true by lia.
         replace (rune_index s r =? -1) with false by lia. reflexivity. }
     rewrite Et. cbn [bind].
-    destruct (ir_folds_ok folds r s (rune_index s r) (rune_len r) Hw Hn ltac:(lia)) as (sz & E).
-    exists sz. exact E.
+    destruct (ir_folds_ok folds r s (rune_index s r) (rune_len r) Hw Hn ltac:(lia)) as (sz & E & Hsz).
+    + intros x Hx. apply Hcne. right. exact Hx.
+    + exact Hszr.
+    + exists sz. split; [exact E|intros _; exact Hsz].
   - destruct (upper_lower r) as [[u l] ok] eqn:UL. destruct ok.
     + assert (Hin : In r [l; u]).
       { pose proof (Hcands r r Hr ltac:(unfold int32, MaxRune in *; lia)) as H. unfold cands_of in H. rewrite FM, UL in H. apply H. reflexivity. }
       assert (Hl : 0 <= l <= MaxRune) by (apply (Hcrange r l Hr); unfold cands_of; rewrite FM, UL; left; reflexivity).
       assert (Hu : 0 <= u <= MaxRune) by (apply (Hcrange r u Hr); unfold cands_of; rewrite FM, UL; right; left; reflexivity).
-      destruct (indexRune2_ok s l u Hw ltac:(lia) ltac:(lia)) as (sz & E).
+      destruct (indexRune2_ok s l u Hw ltac:(lia) ltac:(lia)) as (sz & E & Hsz).
       { destruct Hin as [<-|[<-|[]]]; [left|right]; lia. }
-      exists sz. rewrite E. f_equal. f_equal.
-      change (rune_index s l) with (first_in (fun x => x =? l) s). change (rune_index s u) with (first_in (fun x => x =? u) s).
-      rewrite <- first_in_or. apply first_in_ext. intros x _. cbn [existsb]. rewrite orb_false_r. reflexivity.
-    + rewrite (irc_first_in s r Hw). cbn [bind]. exists (rune_len r). f_equal. f_equal.
-      apply first_in_ext. intros x _. cbn [existsb]. rewrite orb_false_r. reflexivity.
+      { apply Hcne. left. reflexivity. }
+      { apply Hcne. right. left. reflexivity. }
+      assert (Ez : zmin (rune_index s l) (rune_index s u) = first_in (fun x => existsb (Z.eqb x) [l; u]) s).
+      { change (rune_index s l) with (first_in (fun x => x =? l) s). change (rune_index s u) with (first_in (fun x => x =? u) s).
+        rewrite <- first_in_or. apply first_in_ext. intros x _. cbn [existsb]. rewrite orb_false_r. reflexivity. }
+      rewrite <- Ez. exists sz. split; [exact E|intros _; exact Hsz].
+    + rewrite (irc_first_in s r Hw). cbn [bind].
+      assert (Ez : first_in (fun x => x =? r) s = first_in (fun x => existsb (Z.eqb x) [r]) s).
+      { apply first_in_ext. intros x _. cbn [existsb]. rewrite orb_false_r. reflexivity. }
+      rewrite <- Ez. exists (rune_len r). split; [reflexivity|intros _; exact Hszr].
 Qed.
 
 Theorem indexrune_refines s r :
   wf s -> IndexRune native cutover fold_map upper_lower s r = Ok (index_rune fold s r).
-Proof. intros Hw. unfold IndexRune. destruct (indexRune_ok s r Hw) as (sz & E). rewrite E. reflexivity. Qed.
+Proof. intros Hw. unfold IndexRune. destruct (indexRune_ok s r Hw) as (sz & E & _). rewrite E. reflexivity. Qed.
 
 Theorem containsrune_refines s r :
   wf s -> ContainsRune native cutover fold_map upper_lower s r = Ok (contains_rune fold s r).
